@@ -208,10 +208,16 @@ def correspond(ctx, corr, model_ok):
                                                              'lenreq': lenreq})
         corr.extra['oracle_exhaustive_window'] = cnt
         corr.evaluations += cnt
+    nb = ctx.scale(60, 1500)
+    corr.oracle_failures.extend(burst_oracle(rng, nb))
+    corr.count('bursts through the real sender', nb)
+    corr.evaluations += nb
     corr.rule = ('five fragmentable frame types x fragment sizes x both framing modes x (|metadata|,|data|) over all pairs of '
                  'boundary lengths (0,1,budget-1,budget,budget+1, 2 and 3 fragments +-1) plus random lengths up to 6 fragments '
                  'and a 70000-byte payload; real get_next_fragment/serialize/parse_or_ignore/FrameFragmentCache; non-trivial = '
-                 'more than one fragment; distinct by (type,|md|,|d|,size,framing,complete)')
+                 'more than one fragment; distinct by (type,|md|,|d|,size,framing,complete).  Bursts: 2..5 large frames queued back to '
+                 'back on one stream through the REAL sender with the writer blocked at random moments and another stream in '
+                 'between, the wire fed to a real FrameFragmentCache: what comes out per stream must be what was queued')
     # the same known-finding witness must not flood the report: keep one per finding
     if not model_ok:
         return
@@ -221,6 +227,44 @@ def correspond(ctx, corr, model_ok):
     for si, (n, nf, idx) in enumerate(out):
         for i in idx:
             corr.disagreements.append(dict(items[si * SHARD + i][1], what='fragmenter/cache vs model/Fragmenter.v'))
+
+
+def burst_scripts(rng, n):
+    """several large frames queued back to back on ONE stream (a publisher emitting a burst), the writer blocked at
+    different moments, other streams in between: the fragments travel through the real sender and the receiver's cache"""
+    out = []
+    for _ in range(n):
+        size = rng.choice([64, 64, 65, 100])
+        lenreq = rng.random() < 0.5
+        sid = rng.choice([1, 2, 7])
+        script = []
+        k = rng.randint(2, 5)
+        for i in range(k):
+            t = 'Payload' if i or rng.random() < 0.6 else rng.choice(['RequestResponse', 'RequestStream', 'RequestChannel'])
+            dl = rng.choice([10, size - 6, 2 * size, 3 * size + 5, rng.randint(0, 4 * size)])
+            ml = rng.choice([0, 0, 5, size, rng.randint(0, 2 * size)])
+            script.append(('enq', mk(t, sid, FR.pat(3 + i, 0, ml), FR.pat(9 + i, 0, dl), complete=(i == k - 1))))
+            r = rng.random()
+            if r < 0.3:
+                script.append(('permit', rng.randint(1, 3)))
+            elif r < 0.45:
+                script.append(('enq', mk('Payload', sid + 2, b'', FR.pat(40 + i, 0, rng.randint(0, 3 * size)))))
+            elif r < 0.55:
+                script.append(('tick',))
+        out.append((script, size, lenreq))
+    return out
+
+
+def burst_oracle(rng, n):
+    from harness.props import c05
+    fails = []
+    for script, size, lenreq in burst_scripts(rng, n):
+        labels, wire = c05.run_history(script, size, lenreq)
+        o = c05.oracle(labels, wire, size, lenreq)
+        if o:
+            fails.append({'what': 'fragments through the real sender and the receiver\'s cache: ' + o, 'kind': 'burst',
+                          'script': script, 'size': size, 'lenreq': lenreq})
+    return fails
 
 
 def known_md_length_field():
@@ -249,12 +293,34 @@ def search(ctx, budget_s):
         bad = [x for x in c.oracle_failures if x.get('finding') is None]
         if bad:
             return bad[:1]
+        bad = burst_oracle(rng, 40)
+        if bad:
+            return bad[:1]
     return []
+
+
+def _unrepr(x):
+    import ast
+    if isinstance(x, str) and x.startswith(("b'", 'b"')):
+        return ast.literal_eval(x)
+    if isinstance(x, list):
+        return [_unrepr(y) for y in x]
+    if isinstance(x, dict):
+        return {k: _unrepr(v) for k, v in x.items()}
+    return x
 
 
 def replay(obj):
     import ast
     case = obj['case']
+    if case.get('kind') == 'burst':
+        from harness.props import c05
+        script = [tuple(_unrepr(st)) for st in case['script']]
+        labels, wire = c05.run_history(script, case['size'], case['lenreq'])
+        o = c05.oracle(labels, wire, case['size'], case['lenreq'])
+        if o:
+            print('oracle:', o)
+        return bool(o)
     fr = case['frame']
     for k, v in list(fr.items()):
         if isinstance(v, str) and v.startswith(("b'", 'b"')):
